@@ -5,6 +5,51 @@ from analysis.mir import Body, callee_name, callee_id
 from rules import panicrules as pr, lefrules as lr
 
 
+def error_leaves_loop(b, call_bb, header, blocks):
+    """the Err result of the call at call_bb cannot flow back to the loop header (it is propagated or leaves the loop)"""
+    t = b.term(call_bb)
+    locs = {t["dest"]["l"]}
+    cur = t["t"]
+    seen = set()
+    while cur is not None and cur not in seen and cur in blocks:
+        seen.add(cur)
+        blk = b.blocks[cur]
+        for st in blk["st"]:
+            if st["k"] == "assign" and not st["p"]["p"]:
+                rv = st["rv"]
+                src = None
+                if rv["k"] == "use":
+                    src = rv["o"].get("cp") or rv["o"].get("mv")
+                elif rv["k"] == "discr":
+                    src = rv["p"]
+                elif rv["k"] == "ref":
+                    src = rv["p"]
+                if src is not None and src["l"] in locs:
+                    locs.add(st["p"]["l"])
+        u = blk["term"]
+        if u["k"] == "call":
+            if any(((a.get("cp") or a.get("mv") or {}).get("l")) in locs for a in u["args"]) and (callee_name(u) or "").endswith("Try>::branch"):
+                locs.add(u["dest"]["l"])
+            cur = u["t"]
+            continue
+        if u["k"] == "switch":
+            on = u["on"].get("cp") or u["on"].get("mv")
+            if on is not None and on["l"] in locs:
+                err_t = [tgt for v, tgt in u["arms"] if v == 1]
+                if not err_t and not b.is_unreachable_blk(u["else"]):
+                    err_t = [u["else"]]
+                if not err_t:
+                    return True
+                r = od.reach(b, err_t[0])
+                return header not in r
+            return True
+        if u["k"] in ("goto", "drop", "assert"):
+            cur = u["t"]
+            continue
+        return True
+    return True
+
+
 def run(ctx):
     F = ctx.F
     cg = pr.callgraph(F)
@@ -126,7 +171,7 @@ def run(ctx):
                 continue
             # parser loops: a consuming call on every cycle is not enough (next_token is a no-op at end of input):
             # every cycle must also pass an end-of-input-failing step, or the loop exit must be forced at end of input
-            eofs = [x for x in blocks if b.term(x)["k"] == "call" and callee_id(b.term(x)) in eof_fail]
+            eofs = [x for x in blocks if b.term(x)["k"] == "call" and callee_id(b.term(x)) in eof_fail and error_leaves_loop(b, x, header, blocks)]
             # in-loop `match next_token()/peek_token() { None => error / leave }`: the Some-arm target acts as the step
             for x in blocks:
                 t = b.term(x)
